@@ -23,6 +23,13 @@ def rename_case(rng):
             continue
         u, m = rng.choice(cands)
         old = m["name"]
+        # a second rule in the same configuration (another method of the same class), with calls of both on one line
+        old2 = None
+        others2 = sorted(set(mm["name"] for mm in u["members"] if mm["kind"] == "method" and mm["name"] != old))
+        hosts2 = [mm for mm in u["members"] if mm.get("body") is not None]
+        if others2 and hosts2 and rng.random() < 0.25:
+            old2 = rng.choice(others2)
+            rng.choice(hosts2)["body"].insert(0, ("expr", ("call", None, old, [("call", None, old2, []), ("call", ("this",), old2, [("call", None, old, [])])])))
         if rng.random() < 0.3:
             # several sites on one line: a call of the renamed method with calls of it among its arguments
             hosts = [mm for mm in u["members"] if mm.get("body") is not None]
@@ -51,23 +58,33 @@ def rename_case(rng):
         new = rng.choice([n for n in NEW_NAMES if n != old])
         if any(new == mm["name"] for un in units for mm in un["members"]):
             continue
-        tokens = {}      # path -> (line, col) of every declaration / call / method-reference identifier token named `old` (ground truth)
-        for b in built:
-            s = set()
-            for f in b["facts"]["functions"]:
-                if f["name"] == old and f["kind"] != "ctor":
-                    s.add((f["nameLine"], f["nameCol"]))
-                for c in f["calls"]:
-                    if c["kind"] in ("call", "mref") and c["name"] == old:
+        def tokens_of(name):
+            """path -> (line, col) of every declaration / call / method-reference identifier token of that name (ground truth)"""
+            toks = {}
+            for b in built:
+                s = set()
+                for f in b["facts"]["functions"]:
+                    if f["name"] == name and f["kind"] != "ctor":
+                        s.add((f["nameLine"], f["nameCol"]))
+                    for c in f["calls"]:
+                        if c["kind"] in ("call", "mref") and c["name"] == name:
+                            s.add((c["line"], c["col"]))
+                for c in b["facts"].get("fieldCalls", []):
+                    if c["kind"] in ("call", "mref") and c["name"] == name:
                         s.add((c["line"], c["col"]))
-            for c in b["facts"].get("fieldCalls", []):
-                if c["kind"] in ("call", "mref") and c["name"] == old:
-                    s.add((c["line"], c["col"]))
-            tokens[b["path"]] = sorted(s)
-        return {"op": "rename", "files": files, "old": "%s.%s.%s" % (u["pkg"], u["name"], old), "new": "%s.%s.%s" % (u["pkg"], u["name"], new),
-                "oldName": old, "newName": new, "tokens": tokens, "cls": [u["pkg"], u["name"]],
+                toks[b["path"]] = sorted(s)
+            return toks
+        case = {"op": "rename", "files": files, "old": "%s.%s.%s" % (u["pkg"], u["name"], old), "new": "%s.%s.%s" % (u["pkg"], u["name"], new),
+                "oldName": old, "newName": new, "tokens": tokens_of(old), "cls": [u["pkg"], u["name"]],
                 # one project in six through the real `coca analysis -p dir` + `coca refactor -R conf -d deps.json` (fresh processes)
                 "cli": rng.random() < 0.17}
+        if old2:
+            new2 = rng.choice([n for n in NEW_NAMES if n not in (old, old2, new)] or ["zz2"])
+            if any(new2 == mm["name"] for un in units for mm in un["members"]):
+                continue
+            case.update({"old2": "%s.%s.%s" % (u["pkg"], u["name"], old2), "new2": "%s.%s.%s" % (u["pkg"], u["name"], new2),
+                         "oldName2": old2, "newName2": new2, "tokens2": tokens_of(old2), "cli": rng.random() < 0.5})
+        return case
     raise RuntimeError("no renameable project generated")
 
 
@@ -110,6 +127,8 @@ def oracle_c05(case, out, raw):
         return [("panic", "rename panicked at %s: %s" % ((raw or {}).get("site"), (raw or {}).get("panic")))]
     ds = []
     old, new = case["oldName"], case["newName"]
+    if "old2" in case:
+        return oracle_c05_two(case, out)
     # the sites the model attributes to the method must stand on identifier tokens `old` (positions are C01/C02's business, re-checked here)
     per_file = {}
     for s in out["sites"]:
@@ -161,6 +180,40 @@ def oracle_c05(case, out, raw):
     return p_java.dedup(ds)
 
 
+def oracle_c05_two(case, out):
+    """a configuration with two rules: every file equals the original with the attributed identifier tokens of BOTH methods replaced
+    (simultaneously - the positions are those of the original text), every other byte unchanged"""
+    ds = []
+    rules = [(case["oldName"], case["newName"], case["tokens"], out["sites"]), (case["oldName2"], case["newName2"], case["tokens2"], out.get("sites2", []))]
+    for path, text in case["files"].items():
+        edits = {}      # line -> [(col, old, new)]
+        bad = False
+        for old, new, tokens, sites in rules:
+            mine = sorted(set((s["line"], s["start"]) for s in sites if s["file"] == path))
+            truth = set(tuple(t) for t in tokens.get(path, []))
+            if any(s not in truth for s in mine):
+                ds.append(("c05-site-not-on-identifier", "%s: a site of %s stands on no declaration/call identifier of that name" % (path, old)))
+                bad = True
+            for ln, col in mine:
+                edits.setdefault(ln, []).append((col, old, new))
+        if bad:
+            continue
+        lines = text.split("\n")
+        for ln, es in edits.items():
+            line, outl, pos = lines[ln - 1], "", 0
+            for col, old, new in sorted(es):
+                if col < pos or line[col:col + len(old)] != old:
+                    ds.append(("c05-site-not-on-identifier", "%s line %d: a site does not select %r" % (path, ln, old)))
+                    break
+                outl += line[pos:col] + new
+                pos = col + len(old)
+            lines[ln - 1] = outl + line[pos:]
+        exp = "\n".join(lines)
+        if out["files"].get(path) != exp and not ds:
+            ds.append(("c05-bytes-differ", "%s (two rules): rewritten file differs from 'only the attributed identifiers replaced': %s" % (path, first_text_diff(exp, out["files"].get(path)))))
+    return p_java.dedup(ds)
+
+
 def canon_model(nodes):
     out = []
     for n in nodes:
@@ -194,6 +247,8 @@ def augment(case, impl):
 
 
 def view(o):
+    if isinstance(o, dict) and "unmodelled" in o:
+        return {"unmodelled": True}
     if isinstance(o, dict) and "files1" in o:
         return {"files1": o["files1"], "files2": o["files2"]}
     if isinstance(o, dict) and "files" in o:
